@@ -35,6 +35,7 @@ def _key(M):
 
 
 ORTHO_STATS = dict(exact=0, randomized=0)
+LAST_DEV = []
 
 
 def _is_orthonormal(R):
@@ -70,10 +71,12 @@ def _is_orthonormal(R):
             for j in range(3):
                 v = sum(M[k][i] * M[k][j] for k in range(3)) - (1 if i == j else 0)
                 if abs(v) > 1e-8:
+                    LAST_DEV.append((i, j, v))
                     return False
         good += 1
         if good >= 3:
             return True
+    LAST_DEV.append(('no-points', good))
     return False
 
 
@@ -96,7 +99,10 @@ def install(env):
     def MatrixLog3(R):
         R = np.asarray(R)
         if all(not isinstance(x, Sym) or x.const_value() is not None for x in R.reshape(-1)):
-            return real_log(R)
+            # concrete matrix: only the exact identity goes through the real code (exact zeros); any other concrete
+            # rotation is summarised too, so that no float trigonometry enters exact arithmetic
+            if all(Sym.lift(R[i, j]).const_value() == (1 if i == j else 0) for i in range(3) for j in range(3)):
+                return real_log(R)
         t = _tables()
         k = _key(R)
         hit = t['log'].get(k)
@@ -116,6 +122,9 @@ def install(env):
                 return np.array([[0, -w[2], w[1]], [w[2], 0, -w[0]], [-w[1], w[0], 0]])
         if not _is_orthonormal(R):
             # not recognisably a rotation: use the real code
+            import os
+            if os.environ.get('VERIF_DEBUG_SUMMARY'):
+                print('SUMMARY: not orthonormal; sizes', [len(Sym.lift(x).n) for x in R.reshape(-1)], ORTHO_STATS, LAST_DEV)
             return real_log(R)
         n = t['n']
         t['n'] += 1
@@ -133,18 +142,22 @@ def install(env):
         ang = Sym.atom(a_at)
         sa = Sym.atom(sa_at)
         l = [Sym.atom(a) for a in at]
+        if not fresh:
+            sa = a_at.data.sin
         if fresh:
             P = S.pi_atom()
             a_at.nonneg = True
             sa_at.nonneg = True
+            if x.const_value() is not None:
+                sa = S.sym_sqrt(1 - x * x)          # concrete rotation: exact sine (rational or a sqrt constant)
             a_at.data.cos = x
             a_at.data.sin = sa
             xz = x.z()
-            base = [a_at.z >= 0, a_at.z <= P.z, sa_at.z >= 0, sa_at.z * sa_at.z + xz * xz == 1,
+            base = [a_at.z >= 0, a_at.z <= P.z, sa_at.z >= 0, sa_at.z * sa_at.z + xz * xz == 1, sa_at.z == Sym.lift(sa).z(),
                     z3.Implies(xz == 1, a_at.z == 0), z3.Implies(a_at.z == 0, xz == 1),
                     z3.Implies(xz == -1, a_at.z == P.z), z3.Implies(a_at.z == P.z, xz == -1),
                     sa_at.z <= a_at.z, xz >= 1 - a_at.z * a_at.z / 2]
-            xdeps = set(x.atoms()) | {P.id}
+            xdeps = set(x.atoms()) | {P.id} | set(Sym.lift(sa).atoms())
             a_at.axioms = base
             sa_at.axioms = base
             a_at.deps = tuple(xdeps | {sa_at.id})
